@@ -7,6 +7,8 @@ import HappyModel.C06.Basic
 * `bi a b`     — reference count of the unordered pair in `Network._partitioned_pairs`
                  (`Network.partition` adds one per handle, `Partition.heal` releases one)
 * `dir a b`    — same for `Network._directed_partitions`
+* `live`       — the `Partition` handles that still hold their references (`not _healed` and created
+                 after the last `Network.heal_partition()`: `_generation == _heal_generation`)
 * `lat`        — the stack of `_CompoundLatency` layers on the links (`InjectLatency.activate` pushes a
                  layer on the current latency, `deactivate` removes its own layer: `_without_layer`)
 * `loss`       — `_InjectedLoss.extras` of the links
@@ -31,6 +33,7 @@ structure WS where
   depth : Nat → Nat := fun _ => 0
   bi : Nat → Nat → Nat := fun _ _ => 0
   dir : Nat → Nat → Nat := fun _ _ => 0
+  live : List Nat := []
   lat : List Layer := []
   loss : List Layer := []
   capf : List Factor := []
@@ -42,21 +45,31 @@ def dirCov (A B : List Nat) (a b : Nat) : Nat := if a ∈ A ∧ b ∈ B then 1 e
 def WS.activate (w : WS) (fid : Nat) : Kind → WS
   | .crash e => { w with depth := upd w.depth e (w.depth e + 1) }
   | .pause e => { w with depth := upd w.depth e (w.depth e + 1) }
-  | .part false A B => { w with bi := fun a b => w.bi a b + biCov A B a b }
-  | .part true A B => { w with dir := fun a b => w.dir a b + dirCov A B a b }
+  | .part false A B => { w with bi := fun a b => w.bi a b + biCov A B a b, live := fid :: w.live }
+  | .part true A B => { w with dir := fun a b => w.dir a b + dirCov A B a b, live := fid :: w.live }
   | .lat a b x => { w with lat := ⟨fid, a, b, x⟩ :: w.lat }
   | .loss a b x => { w with loss := ⟨fid, a, b, x⟩ :: w.loss }
   | .cap n d => { w with capf := ⟨fid, n, d⟩ :: w.capf }
 
-/-- the deactivation closure of fault `fid` -/
+/-- the deactivation closure of fault `fid`; `Partition.heal()` is a no-op on a handle that holds
+    no references any more (healed before, or swept by `Network.heal_partition()`) -/
 def WS.deactivate (w : WS) (fid : Nat) : Kind → WS
   | .crash e => { w with depth := upd w.depth e (w.depth e - 1) }
   | .pause e => { w with depth := upd w.depth e (w.depth e - 1) }
-  | .part false A B => { w with bi := fun a b => w.bi a b - biCov A B a b }
-  | .part true A B => { w with dir := fun a b => w.dir a b - dirCov A B a b }
+  | .part false A B =>
+    if w.live.contains fid then
+      { w with bi := fun a b => w.bi a b - biCov A B a b, live := w.live.erase fid }
+    else w
+  | .part true A B =>
+    if w.live.contains fid then
+      { w with dir := fun a b => w.dir a b - dirCov A B a b, live := w.live.erase fid }
+    else w
   | .lat _ _ _ => { w with lat := w.lat.filter (·.fid != fid) }
   | .loss _ _ _ => { w with loss := w.loss.filter (·.fid != fid) }
   | .cap _ _ => { w with capf := w.capf.filter (·.fid != fid) }
+
+/-- `Network.heal_partition()`: every pair is unblocked and every outstanding handle is spent -/
+def WS.healAll (w : WS) : WS := { w with bi := fun _ _ => 0, dir := fun _ _ => 0, live := [] }
 
 /-! ### what the rest of the system reads -/
 
